@@ -14,7 +14,8 @@ def stdTbl : Tbl :=
     spaceClass := 119, tokenClass := 116, numClass := 110,
     escapes := [(8, [92, 98]), (12, [92, 102]), (10, [92, 110]), (13, [92, 114]), (9, [92, 116]), (92, [92, 92]), (34, [92, 34])],
     unescapes := [(34, 34), (92, 92), (47, 47), (98, 8), (102, 12), (110, 10), (114, 13), (116, 9)],
-    terminators := [0, 32, 9, 10, 13, 12, 44, 125, 93, 123, 91, 41] }
+    terminators := [0, 32, 9, 10, 13, 12, 44, 125, 93, 123, 91, 41],
+    jsonKeysEscaped := true }
 
 /-- a property that holds of the 128 ASCII characters and of every character ≥ 128 holds of all -/
 theorem forall_char_of_ascii (P : Char → Prop) (hlo : ∀ n, n < 128 → P (Char.ofNat n)) (hhi : ∀ c : Char, 128 ≤ c.toNat → P c) :
